@@ -1,3 +1,4 @@
+import Ccp.Py.Basic
 /-!
 Integer model of the change seatbelt of `ConfigList` (ciscoconfparse2.py):
 
@@ -13,8 +14,8 @@ of C06/C07 (`Ccp.Edit`) abstracts this integer pair to a boolean `stale`.  The t
 when that abstraction is right: the search seatbelt trips iff the hash sums differ.
 -/
 namespace Ccp.Checkpoint
+open Ccp.Py
 
-abbrev Str := List Char
 /-- a line object as the checkpoint sees it: `(linenum, text)`; a fresh object has `linenum = -1` -/
 abbrev Item := Int × Str
 
